@@ -46,9 +46,8 @@ def _stacks(block):
         s = line.strip()
         if s.startswith("/") or s.startswith("<"):
             continue  # file:line
-        m = re.match(r"^(\S+?)\(", s)
-        if m:
-            cur[1].append(m.group(1))
+        if s.endswith(")") and "(" in s:
+            cur[1].append(s[:s.rindex("(")])
     return stacks
 
 
